@@ -28,6 +28,7 @@ float dist(const Matrix3& a, const Matrix3& b) { return maxAbs(a - b); }
 bool finite3(const Vector3& v) { return std::isfinite(v.x) && std::isfinite(v.y) && std::isfinite(v.z); }
 
 void bad(const char* law, const std::string& detail) { R_viol(law, law, detail); }
+void badAt(const char* law, const std::string& site, const std::string& detail) { R_viol(law, site, detail); }
 
 void xformLaws(Rng& rng, int variant) {
 	float tm = variant % 3 == 0 ? 1e5f : variant % 3 == 1 ? 100.0f : 1.0f;
@@ -86,7 +87,10 @@ void rotLaws(Rng& rng, int variant) {
 	Matrix3 mb = RotVecToMat(big);
 	if (dist(mb * mb.Transpose(), Matrix3()) > 2e-5f) bad("rotvec-orthonormal", fmt("angle=%g err=%g", big.length(), dist(mb * mb.Transpose(), Matrix3())));
 	Vector3 bv = RotMatToVec(mb);
-	if (!finite3(bv) || dist(RotVecToMat(bv), mb) > 5e-4f) bad("rotmat-roundtrip-anyangle", fmt("angle=%g err=%g", big.length(), dist(RotVecToMat(bv), mb)));
+	// conditioning: the axis comes from the antisymmetric part, whose length is 2 sin(angle); one float ulp in the matrix moves it by ~1e-7 / sin(angle)
+	double sinEff = 0.5 * std::sqrt(std::pow((double)mb[1][2] - mb[2][1], 2) + std::pow((double)mb[2][0] - mb[0][2], 2) + std::pow((double)mb[0][1] - mb[1][0], 2));
+	float tolAny = 1e-4f + (float)std::min(6e-7 / std::max(sinEff, 1e-9), 4e-3);
+	if (!finite3(bv) || dist(RotVecToMat(bv), mb) > tolAny) bad("rotmat-roundtrip-anyangle", fmt("angle=%g err=%g tol=%g", big.length(), dist(RotVecToMat(bv), mb), tolAny));
 	R_cover(fmt("rot/%d/%016llx", variant, (unsigned long long)rng.s));
 }
 
@@ -141,6 +145,28 @@ void averageLaws(Rng& rng, int variant) {
 	R_cover(fmt("avg/%d/%016llx", variant, (unsigned long long)rng.s));
 }
 
+void checkSphere(const std::vector<Vector3>& pts, int kind, float mag, const std::string& origin) {
+	BoundingSphere s(pts);
+	Vector3 lo = pts[0], hi = pts[0];
+	for (auto& p : pts) { lo.x = std::min(lo.x, p.x); lo.y = std::min(lo.y, p.y); lo.z = std::min(lo.z, p.z); hi.x = std::max(hi.x, p.x); hi.y = std::max(hi.y, p.y); hi.z = std::max(hi.z, p.z); }
+	float halfDiag = lo.DistanceTo(hi) * 0.5f;
+	float coordMag = std::max({std::fabs(lo.x), std::fabs(lo.y), std::fabs(lo.z), std::fabs(hi.x), std::fabs(hi.y), std::fabs(hi.z)});
+	float tol = 1e-4f * (s.radius + 1.0f) + 4e-6f * coordMag;
+	static const char* KIND[] = {"single", "pair", "collinear", "coplanar", "identical", "two-distinct", "general-with-duplicates", "general-with-duplicates"};
+	std::string cls = std::string(KIND[kind]) + (mag > 100.0f ? "/coords-1e4" : "/coords-50");
+	auto dump = [&] {
+		if (!g_cfg.verbose) return;
+		for (auto& p : pts) fprintf(stderr, "%.9g %.9g %.9g\n", p.x, p.y, p.z);
+	};
+	if (!std::isfinite(s.radius) || !finite3(s.center)) { bad("sphere-finite", fmt("%skind=%d n=%zu radius=%g", origin.c_str(), kind, pts.size(), s.radius)); dump(); return; }
+	for (auto& p : pts)
+		if (p.DistanceTo(s.center) > s.radius + tol) { badAt("sphere-contains", cls, fmt("%skind=%d n=%zu point outside by %g (radius %g)", origin.c_str(), kind, pts.size(), p.DistanceTo(s.center) - s.radius, s.radius)); dump(); break; }
+	if (s.radius > halfDiag + tol) {
+		badAt("sphere-minimal", cls, fmt("%skind=%d n=%zu radius %g > half bounding-box diagonal %g (-v prints the points)", origin.c_str(), kind, pts.size(), s.radius, halfDiag));
+		dump();
+	}
+}
+
 void sphereLaws(Rng& rng, int variant) {
 	R_eval();
 	std::vector<Vector3> pts;
@@ -160,17 +186,24 @@ void sphereLaws(Rng& rng, int variant) {
 		pts.push_back(p);
 	}
 	if (kind >= 6 && n > 4) for (int i = 0; i < n / 3; i++) pts.push_back(pts[rng.below((uint32_t)pts.size())]);   // duplicates
-	BoundingSphere s(pts);
-	Vector3 lo = pts[0], hi = pts[0];
-	for (auto& p : pts) { lo.x = std::min(lo.x, p.x); lo.y = std::min(lo.y, p.y); lo.z = std::min(lo.z, p.z); hi.x = std::max(hi.x, p.x); hi.y = std::max(hi.y, p.y); hi.z = std::max(hi.z, p.z); }
-	float halfDiag = lo.DistanceTo(hi) * 0.5f;
-	float coordMag = std::max({std::fabs(lo.x), std::fabs(lo.y), std::fabs(lo.z), std::fabs(hi.x), std::fabs(hi.y), std::fabs(hi.z)});
-	float tol = 1e-4f * (s.radius + 1.0f) + 4e-6f * coordMag;
-	if (!std::isfinite(s.radius) || !finite3(s.center)) { bad("sphere-finite", fmt("kind=%d n=%zu radius=%g", kind, pts.size(), s.radius)); return; }
-	for (auto& p : pts)
-		if (p.DistanceTo(s.center) > s.radius + tol) { bad("sphere-contains", fmt("kind=%d n=%zu point outside by %g (radius %g)", kind, pts.size(), p.DistanceTo(s.center) - s.radius, s.radius)); break; }
-	if (s.radius > halfDiag + tol) bad("sphere-minimal", fmt("kind=%d n=%zu radius %g > half bounding-box diagonal %g", kind, pts.size(), s.radius, halfDiag));
+	checkSphere(pts, kind, mag, "");
 	if (kind > 1) R_cover(fmt("sph/%d/%016llx", variant, (unsigned long long)rng.s));
+}
+
+// point sets kept under findings/C20 (witnesses of recorded findings): evaluated in every run
+void pinnedSpheres() {
+	std::ifstream in(g_cfg.verif + "/findings/C20/collinear_1e4_points.txt");
+	std::vector<Vector3> pts;
+	std::string line;
+	while (std::getline(in, line)) {
+		if (line.empty() || line[0] == '#') continue;
+		Vector3 p;
+		if (sscanf(line.c_str(), "%f %f %f", &p.x, &p.y, &p.z) == 3) pts.push_back(p);
+	}
+	if (pts.empty()) return;
+	R_eval();
+	checkSphere(pts, 2, 1e4f, "pinned findings/C20/collinear_1e4_points.txt: ");
+	R_stat("pinned_point_sets_checked");
 }
 
 void shapeBounds(uint64_t seed, int variant) {
@@ -222,6 +255,7 @@ void run(size_t idx) {
 			case 4: sphereLaws(rng, (int)n); break;
 		}
 	}
+	if (chunk == 0 && g == 4) pinnedSpheres();
 	if (chunk == 0) {
 		static const char* names[] = {"transform compose/inverse/ToMatrix", "rotation vector <-> matrix", "Matrix3/Matrix4 inversion", "average/median of identical transforms", "Miniball bounding spheres"};
 		R_sample(fmt("{\"group\":\"%s\",\"cases_per_chunk\":%zu}", names[g], PER_CASE));
